@@ -35,7 +35,7 @@ class C14(core.Prop):
     id = "C14"
     drivers = ["s4u_interp"]
     ready = True
-    sizes = {"quick": 600, "thorough": 20000}
+    sizes = {"quick": 400, "thorough": 5000}
     max_workers = 6
     technique = ("property-based testing (Hypothesis): terminal outcome of real runs under each context factory must belong to the "
                  "outcome set computed by an independent all-interleavings reference explorer (vf/refsem.py)")
